@@ -39,13 +39,18 @@ fn one_run(store0: &InMemoryBackend, key: &rustic_core::repofile::MasterKey, src
     let st = Arc::new(std::sync::Mutex::new(SplitMix(seed ^ (j.wrapping_mul(0x9E37)))));
     let st2 = st.clone();
     let delay = j % 3 != 0;
-    // schedule >= 1000: one pack write (the 3rd mutating call) stalls for 21 s (a slow upload);
+    // schedule >= 1000: one data-pack write (the 3rd one) stalls for 21 s (a slow upload);
     // pack size: one blob per pack, so that many packs queue up behind it
     let stall = j >= 1000;
     let cnt = Arc::new(std::sync::atomic::AtomicUsize::new(0));
-    rec.set_before(Some(Arc::new(move |_op| {
+    rec.set_before(Some(Arc::new(move |op| {
         if stall {
-            if cnt.fetch_add(1, std::sync::atomic::Ordering::SeqCst) == 2 {
+            // the stalled call is a data-pack write: only the data packer has enough blobs queued
+            // behind it to fill the whole pipeline back to `Packer::add`
+            let data_pack = matches!(op.kind, OpKind::Write)
+                && op.tpe == FileType::Pack
+                && !op.cacheable;
+            if data_pack && cnt.fetch_add(1, std::sync::atomic::Ordering::SeqCst) == 2 {
                 std::thread::sleep(Duration::from_secs(21));
             }
         } else if delay {
@@ -174,6 +179,22 @@ fn case(line: &str) -> String {
     let entries = gen_tree(&mut r, &tp);
     let src = tempfile::tempdir().unwrap();
     materialize(src.path(), &entries).unwrap();
+    let extra = t.opt_s().map_or(0, |x| x.parse::<u64>().unwrap_or(0));
+    if extra & 1 == 1 {
+        // the stall schedule needs far more data blobs than the whole pipeline can hold
+        // (writer queue, pack stages, the parallel compress/encrypt buffers): 12 x 400 KB of
+        // incompressible content, about 600 blobs at 8 KiB average
+        let bulk = src.path().join("zz_bulk");
+        std::fs::create_dir_all(&bulk).unwrap();
+        for i in 0..12 {
+            let mut buf = vec![0u8; 400_000];
+            for c in buf.chunks_mut(8) {
+                let v = r.next().to_le_bytes();
+                c.copy_from_slice(&v[..c.len()]);
+            }
+            std::fs::write(bulk.join(format!("f{i}")), &buf).unwrap();
+        }
+    }
     let store0 = InMemoryBackend::new();
     let cfg = ConfigOptions::default()
         .set_chunk_size(bytesize::ByteSize(8192))
@@ -196,7 +217,6 @@ fn case(line: &str) -> String {
     };
     let mut outs = Vec::new();
     let mut dense: BTreeMap<String, usize> = BTreeMap::new();
-    let extra = t.opt_s().map_or(0, |x| x.parse::<u64>().unwrap_or(0));
     let mut scheds: Vec<u64> = (0..nsched).collect();
     if extra & 1 == 1 {
         scheds.push(1000);
